@@ -232,12 +232,12 @@ def gen_format_cases(ck):
     # random histories of an atomic register, handed to the checker as well
     pools = [list(range(0, 5)), [0, 999, 1000], [998, 999, 1000, 1001], [1500, 1999, 2000, 3], [0, 1], [2000],
              [9, 10, 99, 100, 1000], [1000, 1001, 1002, 1003, 1004, 1005]]
-    for _ in range(260 if quick else 10000):
+    for _ in range(400 if quick else 10000):
         pool = rng.choice(pools) if rng.random() < 0.7 else rng.sample(range(0, 2001), rng.randrange(1, 7))
         cases.append((gen_history(rng, pool, rng.randrange(1, 70), rng.choice([0, 0.1, 0.3]), max_failed_w=3,
                                   vals_jump=rng.random() < 0.3, max_ops=24), True, "linearizable"))
     # arbitrary (not well formed) printable event lists: the parser's map handling off the beaten track
-    for _ in range(150 if quick else 5000):
+    for _ in range(220 if quick else 5000):
         n = rng.randrange(1, 9)
         pool = rng.choice(pools)
         es = []
@@ -554,7 +554,7 @@ def run(ck):
         ck.cov["corpus_cases"] = len(corpus)
         fcases = corpus + fcases
         pcases = []
-        nb = 260 if quick else 8000
+        nb = 400 if quick else 8000
         for i in range(nb):
             np, cmds = gen_script(rng, with_timeouts=(i % (9 if quick else 5) == 0))
             pcases.append((rng.randrange(1, 2 ** 31), np, cmds))
